@@ -26,7 +26,7 @@
                                 same civil time and zone offset (same instant). *)
 From Coq Require Import ZArith List String.
 From GSP Require Import Base.Prelude Value.Time Codec.Desc Codec.Json Codec.JsonTheory Codec.Time Codec.Model Codec.Theory
-  Codec.Lossless Codec.Roundtrip Codec.Inst Codec.W3C Generated.Structs.
+  Codec.Lossless Codec.Roundtrip Codec.State Codec.StateTheory Codec.Inst Codec.W3C Generated.Structs.
 Import ListNotations.
 Open Scope string_scope.
 
@@ -141,6 +141,129 @@ Theorem C14_did_roundtrip :
   did_encode c = Ok e -> did_decode O e = Ok c.
 Proof. exact did_roundtrip. Qed.
 Print Assumptions C14_did_roundtrip.
+
+(* ---- the hand-written codecs of did_doc.go / proof.go, one value at a time ---- *)
+
+(* GistInfoProof: decode (decodeMTP on the whole object + "type"), encode (the proof's own
+   members, under the names merkletree.Proof gives them, + "type"), decode: the same value *)
+Theorem C14_gist_roundtrip :
+  forall (O : oracles),
+  (forall j p, o_mtp O j = Some p -> p <> JNull /\ o_mtp O p = Some p) ->
+  (forall j pm t, o_mtp O j = Some (JObj pm) ->
+     o_mtp O (JObj (mins "type" (JStr t) (msort pm))) = Some (JObj pm) /\
+     (forall a, In a (keys pm) -> fold_eqb a "type" = false)) ->
+  forall j v e, dec_gist O j = Ok v -> enc_gist v = Ok e -> dec_gist O e = Ok v.
+Proof. exact gist_roundtrip. Qed.
+Print Assumptions C14_gist_roundtrip.
+
+(* seeds C14-n / C14-p (the auxiliary node printed as "nodeAux"): refuted on a concrete proof *)
+Theorem C14_gist_nodeAux_refuted :
+  exists v e, dec_gist ex_oracles3 ex_gist = Ok v /\ enc_gist_nodeAux v = Ok e /\ dec_gist ex_oracles3 e <> Ok v.
+Proof. exact gist_nodeAux_refuted. Qed.
+Print Assumptions C14_gist_nodeAux_refuted.
+
+(* one proof of a credential, of a known type (through extractProof's re-marshal and the
+   hand-written decoder) or of an unknown type (CommonProof) *)
+Theorem C14_proof_roundtrip :
+  forall (O : oracles),
+  (forall n n', o_renum O n = Some n' -> o_renum O n' = Some n') ->
+  (forall j p, o_mtp O j = Some p -> p <> JNull /\ o_mtp O p = Some p) ->
+  (forall j p, o_mtp O j = Some p -> norm (o_renum O) p = Some p) ->
+  forall j p e,
+  extract_proof O repo_env j = Ok p -> enc_proof repo_env p = Ok e -> extract_proof O repo_env e = Ok p.
+Proof. exact proof_roundtrip. Qed.
+Print Assumptions C14_proof_roundtrip.
+
+(* one authentication / assertionMethod entry: an object decodes to an embedded method, a
+   non-empty string to a reference, the encoding of a reference is that string and the
+   encoding of a method is an object, and encode-then-decode gives the entry back *)
+Theorem C14_auth_embedded_vs_reference :
+  forall (O : oracles) j a e,
+  dec_auth O repo_env j = Ok a -> enc_auth repo_env a = Ok e ->
+  match j with
+  | JObj _ => (exists vals, a = VAuthMethod vals) /\ exists m, e = JObj m
+  | JStr s => if String.eqb s "" then a = VAuthMethod (zeros (pe_cvm repo_env)) else a = VAuthDid s /\ e = JStr s
+  | _ => False
+  end.
+Proof. exact auth_embedded_vs_reference. Qed.
+Print Assumptions C14_auth_embedded_vs_reference.
+
+Theorem C14_auth_roundtrip :
+  forall (O : oracles),
+  (forall n n', o_renum O n = Some n' -> o_renum O n' = Some n') ->
+  (forall j p, o_mtp O j = Some p -> p <> JNull /\ o_mtp O p = Some p) ->
+  (forall j pm t, o_mtp O j = Some (JObj pm) ->
+     o_mtp O (JObj (mins "type" (JStr t) (msort pm))) = Some (JObj pm) /\
+     (forall a, In a (keys pm) -> fold_eqb a "type" = false)) ->
+  forall j a e,
+  dec_auth O repo_env j = Ok a ->
+  match a with VAuthMethod vals => canon0 (KStruct (pe_cvm repo_env)) (VStruct vals) | _ => True end ->
+  enc_auth repo_env a = Ok e -> dec_auth O repo_env e = Ok a.
+Proof. exact auth_roundtrip. Qed.
+Print Assumptions C14_auth_roundtrip.
+
+(* seed C14-f (a method without type printed as a reference): refuted *)
+Theorem C14_auth_untyped_as_reference_refuted :
+  exists j a e, dec_auth ex_oracles2 repo_env j = Ok a /\ enc_auth_untyped_as_reference a = Ok e /\
+                dec_auth ex_oracles2 repo_env e <> Ok a.
+Proof. exact auth_untyped_as_reference_refuted. Qed.
+Print Assumptions C14_auth_untyped_as_reference_refuted.
+
+(* Authentication.UnmarshalJSON as a function of (receiver, JSON): whatever the receiver
+   held, what IsDID / DID / MarshalJSON see afterwards (auth_view) is what a fresh decode
+   gives; the one exception is the empty reference string "", which only clears did
+   (dec_auth_into_empty_reference_keeps_method) *)
+Theorem C14_decode_overwrites :
+  forall (O : oracles) (prev : option auth_state) (j : json),
+  j <> JStr "" ->
+  res_map auth_view (dec_auth_into O repo_env prev j) = dec_auth O repo_env j.
+Proof. exact (fun O => dec_auth_into_overwrites O repo_env). Qed.
+Print Assumptions C14_decode_overwrites.
+
+(* seeds C14-c / C14-q (did not reset) and C14-m (method never stored): refuted *)
+Theorem C14_decode_keeps_did_refuted :
+  exists prev j, j <> JStr "" /\
+    res_map auth_view (dec_auth_into_keeps_did ex_oracles2 repo_env prev j) <> dec_auth ex_oracles2 repo_env j.
+Proof. exact decode_keeps_did_refuted. Qed.
+Print Assumptions C14_decode_keeps_did_refuted.
+
+Theorem C14_decode_drops_method_refuted :
+  exists prev j, j <> JStr "" /\
+    res_map auth_view (dec_auth_into_drops_method ex_oracles2 repo_env prev j) <> dec_auth ex_oracles2 repo_env j.
+Proof. exact decode_drops_method_refuted. Qed.
+Print Assumptions C14_decode_drops_method_refuted.
+
+(* ---- purity: Merklize / ToCoreClaim / verifyCredentialCoreClaim as state-passing
+   functions (credential in, credential out); the JSON-LD merklizer (mzld), the rest of
+   ToCoreClaim (build) and the comparison (compare) are arbitrary, failing or not ---- *)
+Theorem C14_tocoreclaim_pure :
+  forall (O : oracles) (R C : Type) (mzld : json -> res R) (build : list gval -> R -> res C)
+         (compare : C -> res unit) (c : list gval),
+  fst (merklize_st O repo_env merklize_deleted d_W3CCredential R mzld c) = c /\
+  fst (tocoreclaim_st O repo_env merklize_deleted d_W3CCredential R C mzld build c) = c /\
+  fst (verifyclaim_st O repo_env merklize_deleted d_W3CCredential R C mzld build compare c) = c.
+Proof. exact (fun O R C mzld build compare c => conj eq_refl (conj eq_refl eq_refl)). Qed.
+Print Assumptions C14_tocoreclaim_pure.
+
+(* seeds C14-o / C14-d (proofs detached, restored on the success path only): refuted by a
+   credential with three proofs and a failing JSON-LD step *)
+Theorem C14_merklize_detach_refuted :
+  match cred_decode ex_oracles2 ex_cred2 with
+  | Ok c => fst (merklize_st_detach ex_oracles2 repo_env merklize_deleted d_W3CCredential unit
+                   (fun _ => Err "network is down") c) <> c
+  | _ => False
+  end.
+Proof. exact merklize_detach_refuted. Qed.
+Print Assumptions C14_merklize_detach_refuted.
+
+Theorem C14_verifyclaim_detach_refuted :
+  match cred_decode ex_oracles2 ex_cred2 with
+  | Ok c => fst (verifyclaim_st_detach ex_oracles2 repo_env merklize_deleted d_W3CCredential unit unit
+                   (fun _ => Err "network is down") (fun _ _ => Ok tt) (fun _ => Ok tt) c) <> c
+  | _ => False
+  end.
+Proof. exact verifyclaim_detach_refuted. Qed.
+Print Assumptions C14_verifyclaim_detach_refuted.
 
 (* non-vacuity: a concrete document is in the supported shape *)
 Theorem C14_supported_shape_inhabited : w3c_supported ex_oracles ex_doc.
